@@ -29,7 +29,7 @@ CFG = {
                  "C16_bundle_canonical", "C16_order_independent", "C16_sorted_map_unique", "C16_decoded_bundle_ordered", "C16_mint_sorted",
                  "C16_mint_order_independent", "C16_witness_setters_emit_once", "C16_witness_setters_emit_once_refuted",
                  "C16_builder_witness_set_emits_once", "C16_reference_inputs_spec", "C16_reference_inputs_order_independent",
-                 "C16_reference_inputs_hash_order_refuted", "C16_build_sets", "C16_build_order_independent", "C16_build_deterministic_model"],
+                 "C16_reference_inputs_hash_order_refuted", "C16_build_sets", "C16_build_order_independent", "C16_build_deterministic_model", "C16_judge_accepts_model"],
     "allowed_axioms": [],
     "compare": "exact",
     "nontrivial": _nontrivial,
